@@ -436,9 +436,8 @@ func raceMain(fs *flag.FlagSet, args []string) {
 			}
 			return &chunkReader{data: c.Input, chunk: c.Chunk, failAt: c.FailAt, truncAt: c.TruncAt}
 		}
-		for i, c := range cs {
-			ref[i] = c18Invoke(c.Entry, c.Input, mk(c))
-		}
+		// the parallel phase comes FIRST, on whatever lazily initialised or
+		// cached state the library has not yet built (a warm cache hides races)
 		got := make([]c18Result, len(cs))
 		var wg sync.WaitGroup
 		start := make(chan struct{})
@@ -454,6 +453,9 @@ func raceMain(fs *flag.FlagSet, args []string) {
 		}
 		close(start)
 		wg.Wait()
+		for i, c := range cs {
+			ref[i] = c18Invoke(c.Entry, c.Input, mk(c))
+		}
 		for i := range cs {
 			calls++
 			if got[i].Value != ref[i].Value || got[i].Err != ref[i].Err {
